@@ -10,7 +10,7 @@ VARIABLES l, viol, stat
 vars == <<l, viol, stat>>
 
 Stat0 == [v |-> 0, v_accept |-> 0, v_conservative |-> 0, v_drift |-> 0, v_err_ok |-> 0,
-          s |-> 0, s_run |-> 0, s_built |-> 0, s_judged |-> 0, s_nobuild |-> 0, s_txid_drift |-> 0,
+          s |-> 0, s_run |-> 0, s_built |-> 0, s_judged |-> 0, s_nobuild |-> 0, s_txid_drift |-> 0, s_drift |-> 0, o_drift |-> 0,
           o |-> 0, o_built |-> 0, machinery |-> 0]
 Init == l = 1 /\ viol = <<>> /\ stat = Stat0
 
@@ -20,7 +20,7 @@ SigS(e, r) == "C03|" \o e.chain \o "|" \o e.side \o "|" \o ShapeClass(e.chain, e
               \o "|" \o e.backend \o "|" \o e.spend \o "|fee=" \o e.fee
 SigO(e, r) == "C08|" \o e.backend \o "|" \o ShapeClass(e.chain, e.outs) \o "|" \o r
               \o "|ann=" \o ToString(e.ann) \o "|swapidx=" \o ToString(MinS({i - 1 : i \in GoodIdx(e.outs)}))
-              \o "|n=" \o ToString(Len(e.outs))
+              \o "|n=" \o ToString(Len(e.outs)) \o "|in=" \o e.inkind
 
 Bad(e) ==
     IF e.kind = "v" THEN (IF P_C01V(e.outs, e.accept) THEN {} ELSE {SigV(e)})
@@ -46,9 +46,11 @@ Count(e) ==
                      !.s_judged = @ + B(C03InDomain(e)),
                      !.s_nobuild = @ + B(e.run /\ ~e.built),
                      !.s_txid_drift = @ + B(e.built /\ ~e.txidok),
+                     !.s_drift = @ + B(e.built # PredBuilt(e) \/ (e.built /\ e.inidx + 1 # ImplUseIdx(e.chain, e.outs))),
                      !.machinery = @ + Mach(e)]
     ELSE IF e.kind = "o" THEN
-        [stat EXCEPT !.o = @ + 1, !.o_built = @ + B(e.built), !.machinery = @ + Mach(e)]
+        [stat EXCEPT !.o = @ + 1, !.o_built = @ + B(e.built), !.machinery = @ + Mach(e),
+                     !.o_drift = @ + B(~e.built \/ e.ann + 1 # DesignAnn(e.chain, e.outs))]
     ELSE stat
 
 RECURSIVE AddAll(_, _, _)
